@@ -27,6 +27,11 @@ func genC01(r *prng) *plan {
 	p := &plan{Cfg: map[string]int64{}}
 	p.Cfg["faults"] = int64(r.intn(3) / 2)
 	p.Cfg["vv"] = int64(r.intn(3))
+	if r.chance(20) {
+		// every validation (all three networks) under seeded preemption, batched delivery
+		p.Cfg["preempt"] = int64([]int{1, 3, 9, 40}[r.intn(4)])
+		p.Cfg["quantum"] = int64([]int{0, 5, 20}[r.intn(3)])
+	}
 	n := 6 + r.intn(14)
 	for i := 0; i < n; i++ {
 		switch r.intn(10) {
@@ -174,6 +179,15 @@ func runC01(seed uint64) {
 		w.net.faultsOn = true
 		w.net.faults = netFaults{MinLatency: 2 * time.Millisecond, Jitter: 40 * time.Millisecond, DropPct: 4, DupPct: 4}
 	}
+	if pre := uint64(p.cfg("preempt")); pre > 0 {
+		w.res.Class += "+preempt"
+		w.net.faults.Quantum = time.Duration(p.cfg("quantum")) * time.Millisecond
+		for _, ni := range V.nets {
+			if ni.val != nil {
+				ni.val.preemptEvery, ni.val.preemptSeed = pre, seed^0x93e
+			}
+		}
+	}
 
 	for opi, op := range p.Ops {
 		rs := newPrng(uint64(op.N[len(op.N)-1]) + 1)
@@ -269,6 +283,15 @@ func runC01(seed uint64) {
 		}
 	}
 	w.res.Nontrivial = len(p.Ops) > 0
+	if p.cfg("preempt") > 0 {
+		n := uint64(0)
+		for _, ni := range V.nets {
+			if ni.val != nil {
+				n += ni.val.preempts
+			}
+		}
+		w.res.Faults["preemption"] = int(n)
+	}
 	w.finish()
 }
 
